@@ -3,5 +3,7 @@ CONSTANTS
   MaxLen = 6
   ValSet <- SignedSet
   Elem <- ElemDef
+  LongLens = {17}
+  PerLen = 1
 INVARIANTS MirrorOK RankLoopOK PartitionOK EmitOrder
 CHECK_DEADLOCK FALSE
